@@ -23,6 +23,15 @@ CORRESPONDENCE = "m_list_struct_rows / m_init_from_ls (ExtArray.v: m_transpose_s
 LAYOUTS = [l for l in gen.LAYOUTS if l != "missing_hidden"]
 
 
+class _R:
+    """NaN-safe equality of to_pylist() results: compared through repr (nan == nan, -0.0 != 0.0)"""
+    def __init__(self, v):
+        self.v = repr(v)
+
+    def __eq__(self, o):
+        return self.v == (o.v if isinstance(o, _R) else repr(o))
+
+
 def ls_rows_py(ls_ca, names):
     out = []
     for r in ls_ca.to_pylist():
@@ -78,8 +87,8 @@ def generate(ctx):
                 b = pa.chunked_array(pa.array(pd.Series(arr), type=transpose_struct_list_type(st))) \
                     if False else arr.__arrow_array__(transpose_struct_list_type(st))
                 c = arr.to_arrow_ext_array(list_struct=True)._pa_array
-                ra = ls_rows_py(a, names)
-                assert ra == ls_rows_py(b, names) == ls_rows_py(c, names), "the three exports differ"
+                ra = repr(ls_rows_py(a, names))
+                assert ra == repr(ls_rows_py(b, names)) == repr(ls_rows_py(c, names)), "the three exports differ"
                 assert a.type == transpose_struct_list_type(st)
                 return a
             res = attempt(run)
@@ -116,7 +125,7 @@ def generate(ctx):
             # python-level oracles (pandas / Arrow conversions are contracts); flag B carries the verdict
             def run():
                 s = pd.Series(arr, name="n")
-                want = inp["ca"].to_pylist()
+                want = _R(inp["ca"].to_pylist())
                 if which == "roundtrip":
                     back = NEA(arr.chunked_list_struct_array)
                     assert back.chunked_array.to_pylist() == want and back.dtype == arr.dtype
@@ -155,9 +164,9 @@ def generate(ctx):
                         assert repr(outflat) == repr(expect[1]), "cast values differ"
                         for f in st:
                             if f.name != fld.name:
-                                assert [None if r is None else r[f.name] for r in out.to_pylist()] == \
-                                       [None if r is None else r[f.name] for r in want], "another field changed in a cast"
-                        assert got2[0] == "ok" and got2[1].array.chunked_array.to_pylist() == out.to_pylist()
+                                assert repr([None if r is None else r[f.name] for r in out.to_pylist()]) == \
+                                       repr([None if r is None else r[f.name] for r in inp["ca"].to_pylist()]), "another field changed in a cast"
+                        assert got2[0] == "ok" and repr(got2[1].array.chunked_array.to_pylist()) == repr(out.to_pylist())
                         assert got2[1].dtype == NestedDtype(new_st)
                     elif expect[0] == "err":
                         assert got[0] == "err" and got2[0] == "err", "a non-castable type request was not refused"
